@@ -296,7 +296,8 @@ def _mutant_stream(run, name, kind, muts, meta, mutators, printer, chk, classes,
     fc = "fault_class" if kind == "design" else "fault_class_b"
     pairs = dict(core.coq_eval_cases("C02", fid, IMPORTS, ctype, cases, f"both {chk} {fc}", chunk=60))
     code = {i: v // 1000 for i, v in pairs.items()}
-    cls_codes = {i: v % 1000 for i, v in pairs.items()}
+    cls_codes = {i: v % 1000 % 500 for i, v in pairs.items()}
+    n_tied = sum(1 for v in pairs.values() if v % 1000 >= 500)
     per = {}
     for i, mt in enumerate(meta):
         e = per.setdefault(mt["cls"], dict(mutants=0, not_faulty_by_spec=0, accepted_by_impl=0, top=0, deep=0,
@@ -314,7 +315,8 @@ def _mutant_stream(run, name, kind, muts, meta, mutators, printer, chk, classes,
             e["accepted_by_impl"] += 1
     faulty = [i for i in range(len(muts)) if code.get(i) != 9]
     run.stream(name, len(faulty), len({json.dumps(muts[i], sort_keys=True) for i in faulty}),
-               per_class=per, dropped_not_faulty=len(muts) - len(faulty),
+               per_class=per, dropped_not_faulty=len(muts) - len(faulty), model_tied_cases=n_tied,
+               model_disagrees=sum(1 for c in code.values() if c == 2),
                rule="every counted mutant is faulty by the specification (Spec/WfDesign.v resp. Spec/C02BundleWf.v, evaluated "
                     "in Coq); distinct by mutant design; one class per fault kind of the statement; top/deep = fault planted "
                     "in the top module / below it; site_kinds = kind of connection the fault sits on")
@@ -323,6 +325,12 @@ def _mutant_stream(run, name, kind, muts, meta, mutators, printer, chk, classes,
             run.violation(f"C02:coverage:{cls}", f"no faulty mutant of class {cls} was generated", dict(kind="coverage"), found_input=False)
         elif replay is None and tier_deep_required(cls) and per[cls]["deep"] == 0:
             run.violation(f"C02:coverage-deep:{cls}", f"class {cls} was never planted below the top module", dict(kind="coverage"), found_input=False)
+    v2 = sorted([i for i in range(len(muts)) if code.get(i) == 2], key=lambda i: len(json.dumps(muts[i])))
+    if v2:
+        i = v2[0]
+        run.violation("C02:tie:" + json.dumps(muts[i], sort_keys=True), "Model/C02Checks.v and the implementation disagree on acceptance",
+                      dict(kind="model-vs-impl", cls=meta[i]["cls"], stream=name, case=muts[i], impl=outs[i], count=len(v2)),
+                      found_input=any(c == 1 for c in code.values()))
     v1 = sorted([i for i in faulty if code.get(i) == 1], key=lambda i: len(json.dumps(muts[i])))
     seen_cls = set()
     for i in v1:
@@ -400,7 +408,8 @@ def run(run, tier, seed, replay=None):
     bases = [None] * nbase
     for k in range(nbase):
         r = core.rng(seed, "C02", "base", k)
-        bases[k] = D.gen_design(r, size=r.choice([1, 2, 2, 3]))
+        simple = k % 3 == 0            # every third base design lies in the fragment Model/C02Checks.v is tied on
+        bases[k] = D.gen_design(r, size=r.choice([1, 2, 2, 3]), refs=not simple, ncs=not simple)
     bbases = [B.gen_bdesign(core.rng(seed, "C02", "bbase", k)) for k in range(nbbase)]
     o1 = core.run_worker_sharded("c02", [dict(design=m, entry=ENTRY) for m in bases])
     o2 = core.run_worker_sharded("c02", [dict(design=m, kind="bdesign", entry=ENTRY) for m in bbases])
@@ -421,14 +430,16 @@ def run(run, tier, seed, replay=None):
     run.stream("valid-base-designs", len(bases) + len(bbases),
                len({json.dumps(m, sort_keys=True) for m in bases}) + len({json.dumps(m, sort_keys=True) for m in bbases}),
                core_designs=len(bases), bundle_designs=len(bbases), core_designs_netlistable=n_netlistable, rejected_by_impl=sum(1 for _, c in bad1 + bad2 if c == 10),
-               invalid_by_spec=sum(1 for _, c in bad1 + bad2 if c == 11), features_core=feats,
+               invalid_by_spec=sum(1 for _, c in bad1 + bad2 if c == 11), model_disagrees=sum(1 for _, c in bad1 if c == 2),
+               core_designs_in_model_fragment=sum(1 for k in range(nbase) if k % 3 == 0), features_core=feats,
                rule="a generated design counts when the specification (evaluated in Coq) calls it valid; it is non-trivial when it has at "
                     "least one instance connection (all do); each must be accepted by elaborate, to_proto and netlist")
     for lst, ds, outs, nm in ((bad1, bases, o1, "core"), (bad2, bbases, o2, "bundle")):
         lst = sorted(lst, key=lambda ic: len(json.dumps(ds[ic[0]])))
         for i, c in lst[:1]:
-            what = ("a design that is valid by the specification is rejected by the implementation" if c == 10 else
-                    "the generator of valid designs produced a design the specification calls faulty")
+            what = {10: "a design that is valid by the specification is rejected by the implementation",
+                    11: "the generator of valid designs produced a design the specification calls faulty",
+                    2: "Model/C02Checks.v rejects a valid design that the implementation accepts"}[c]
             run.violation(f"C02:base-{nm}-{c}:" + json.dumps(ds[i], sort_keys=True), what,
                           dict(kind="spec-vs-impl-on-valid-design", case=ds[i], impl=outs[i], code=c, count=len(lst)), found_input=False)
     # ---- stream 2: single-fault mutants of the core designs
